@@ -75,7 +75,7 @@ Definition parent_of (base : cand) (all : list cand) (c : cand) : res cand :=
 Definition spec_alpha (parent child : cand) : Q :=
   let more := Nat.leb (length (c_params parent)) (length (c_params child)) in
   match cf_cutoff cf with
-  | CoNone => if more then (3602879701896397 # 72057594037927936)%Q else (5764607523034235 # 576460752303423488)%Q
+  | CoNone => if more then alpha_more else alpha_fewer
   | CoNum q => q
   | CoPair a b => if more then a else b
   end.
@@ -159,3 +159,14 @@ Fixpoint list_eqb_rows (tol : bool) (a b : list row) : bool :=
       && list_eqb_rows tol a' b'
   | _, _ => false
   end.
+
+(* ---------- readable order / rank notions used in the theorem statements *)
+Definition ole (a b : option Q) : Prop :=      (* a may be listed before b, ascending, NaN last *)
+  match a, b with Some x, Some y => (x <= y)%Q | Some _, None => True | None, Some _ => False | None, None => True end.
+Definition oge (a b : option Q) : Prop :=      (* descending, NaN last *)
+  match a, b with Some x, Some y => (y <= x)%Q | Some _, None => True | None, Some _ => False | None, None => True end.
+(* a may be listed before b in the table returned for reference value [ref] *)
+Definition listed_before_ok (ref : option Q) (a b : row) : Prop :=
+  match ref with None => ole (w_value a) (w_value b) | Some _ => oge (w_delta a) (w_delta b) end.
+Definition row_ranked (r : row) : Prop := w_rank r <> None.
+Definition row_of (rows : list row) (n : id) : option row := find (fun r => Pos.eqb (w_name r) n) rows.
